@@ -3,6 +3,7 @@ package main
 import (
 	"context"
 	"fmt"
+	"math"
 	"os"
 	"sort"
 	"strconv"
@@ -26,16 +27,17 @@ const (
 )
 
 type call struct {
-	tid    int
-	tok    string
-	key    interface{}
-	write  bool
-	seq    int // arrival order
-	task   *sched.Task
-	cancel context.CancelFunc
-	w      atomic.Value // *semap.Weighted returned by Acquire*
-	status int
-	since  int // index of the event after which it was first seen inside
+	tid        int
+	tok        string
+	key        interface{}
+	write      bool
+	seq        int  // arrival order
+	unroutable bool // a key kind remap cannot route, on a sharded map: Acquire* panics before anything is locked
+	task       *sched.Task
+	cancel     context.CancelFunc
+	w          atomic.Value // *semap.Weighted returned by Acquire*
+	status     int
+	since      int // index of the event after which it was first seen inside
 }
 
 // counters incremented by the callers themselves right after Acquire* returned nil (critical-section monitor)
@@ -57,6 +59,7 @@ type world struct {
 	event   int
 	hits    []corr.Hit
 	hitSet  map[string]bool
+	objs    map[int]*ptrObj // pointees of the pointer keys of this script
 }
 
 func (w *world) hit(site, what string) {
@@ -112,37 +115,59 @@ func intCanon(body string, bits int) (int64, bool) {
 	return v, true
 }
 
-// parseKey: `i<int>` int, `l<int64>` int64, `h<int32>` int32, `b<0..255>` uint8, `s<text>` string,
-// `t<int>:<text>` struct{A int; B string} (single map only). All are valid Go map keys with reflexive equality.
-func parseKey(tok, variant string) (interface{}, bool) {
+// ptrObj is what pointer keys point to; `poke n` changes the pointee (the caller's work under the lock) — the key,
+// a pointer, stays the same key.
+type ptrObj struct{ N int }
+
+// parseKey: `i<int>` int, `l<int64>` int64, `h<int32>` int32, `b<0..255>` uint8, `s<text>` string — routable by remap;
+// `t<int>:<text>` struct{A int; B string}, `p<n>` pointer to object n of this script, `f<int -1000..1000>` / `f-0`
+// float64 (`f-0` = negative zero: the SAME map key as `f0`) — valid Go map keys with reflexive equality that remap
+// cannot route: on wide / xhash maps Acquire* panics in remap.ToBytes before anything is locked.
+// Returns the key, the canonical token (identity of the key), whether remap can route it.
+func (w *world) parseKey(tok string) (key interface{}, canon string, routable, ok bool) {
 	if len(tok) == 0 {
-		return nil, false
+		return nil, "", false, false
 	}
 	body := tok[1:]
 	switch tok[0] {
 	case 's':
-		return body, true
+		return body, tok, true, true
 	case 'i':
 		v, ok := intCanon(body, 64)
-		return int(v), ok
+		return int(v), tok, true, ok
 	case 'l':
 		v, ok := intCanon(body, 64)
-		return v, ok
+		return v, tok, true, ok
 	case 'h':
 		v, ok := intCanon(body, 32)
-		return int32(v), ok
+		return int32(v), tok, true, ok
 	case 'b':
 		v, ok := intCanon(body, 64)
-		return uint8(v), ok && v >= 0 && v <= 255
+		return uint8(v), tok, true, ok && v >= 0 && v <= 255
 	case 't':
 		i := strings.IndexByte(body, ':')
-		if i < 0 || variant != "single" {
-			return nil, false
+		if i < 0 {
+			return nil, "", false, false
 		}
 		v, ok := intCanon(body[:i], 64)
-		return structKey{A: int(v), B: body[i+1:]}, ok
+		return structKey{A: int(v), B: body[i+1:]}, tok, false, ok
+	case 'p':
+		n, ok := natCanon(body, 3)
+		if !ok {
+			return nil, "", false, false
+		}
+		if w.objs[n] == nil {
+			w.objs[n] = &ptrObj{N: n}
+		}
+		return w.objs[n], tok, false, true
+	case 'f':
+		if body == "-0" {
+			return math.Copysign(0, -1), "f0", false, true
+		}
+		v, ok := intCanon(body, 64)
+		return float64(v), tok, false, ok && v >= -1000 && v <= 1000
 	}
-	return nil, false
+	return nil, "", false, false
 }
 
 // rw < 0: no WithRwRatio option (the package default applies)
@@ -165,7 +190,7 @@ func newWorld(variant string, rw, prime int) *world {
 	case "xhash":
 		m = semap.NewWideXHashSemMap(opts...)
 	}
-	w := &world{m: m, variant: variant, rw: rw, s: sched.New(), calls: map[int]*call{}, sec: map[string]*section{}, hitSet: map[string]bool{}}
+	w := &world{m: m, variant: variant, rw: rw, s: sched.New(), calls: map[int]*call{}, sec: map[string]*section{}, hitSet: map[string]bool{}, objs: map[int]*ptrObj{}}
 	// a long deadline: under machine load quiescence may take long; running out of it is a harness error (exit 2), never a verdict
 	w.s.Timeout = 90 * time.Second
 	if rw < 1 {
@@ -231,17 +256,20 @@ func without(ids []int, x int) []int {
 	return out
 }
 
-func (w *world) acquire(tid int, tok string, key interface{}, write, precancelled bool) string {
+func (w *world) acquire(tid int, tok string, key interface{}, routable, write, precancelled bool) string {
 	ctx, cancel := context.WithCancel(context.Background())
 	if precancelled {
 		cancel()
 	}
 	c := &call{tid: tid, tok: tok, key: key, write: write, seq: len(w.order), cancel: cancel}
+	c.unroutable = w.variant != "single" && !routable
 	// routing of the sharded variants: a function of the key, inside the shard array
-	i1, n1 := semap.VerifShardIndex(w.m, key)
-	i2, n2 := semap.VerifShardIndex(w.m, key)
-	if i1 != i2 || n1 != n2 || i1 < 0 || i1 >= n1 {
-		w.hit("wide-routing", fmt.Sprintf("key %s routed to shard %d then %d of %d/%d", tok, i1, i2, n1, n2))
+	if !c.unroutable {
+		i1, n1 := semap.VerifShardIndex(w.m, key)
+		i2, n2 := semap.VerifShardIndex(w.m, key)
+		if i1 != i2 || n1 != n2 || i1 < 0 || i1 >= n1 {
+			w.hit("wide-routing", fmt.Sprintf("key %s routed to shard %d then %d of %d/%d", tok, i1, i2, n1, n2))
+		}
 	}
 	sec := w.section(tok)
 	rw := int32(w.rw)
@@ -282,6 +310,14 @@ func (w *world) acquire(tid int, tok string, key interface{}, write, precancelle
 	w.calls[tid] = c
 	w.order = append(w.order, c)
 	w.settle()
+	if c.unroutable {
+		// today: panic `unsupported.type.for.slot` in remap.ToBytes, nothing locked, nothing stored
+		if done, res := c.task.Done(); done && strings.HasPrefix(res, "panic:unsupported.type.for.slot") {
+			c.status = stFailed
+			w.refresh()
+			return "panic:unroutable"
+		}
+	}
 	woke := w.refresh()
 	switch c.status {
 	case stInside:
@@ -390,6 +426,81 @@ func (w *world) relRace(c, u *call) string {
 	return res + " woke=" + showIDs(woke) + " then=" + then
 }
 
+// runBurst: `burst variant rw prime n` — n distinct keys (ints, strings, int64s) are acquired at once on a fresh map
+// (one third as writers), all held together, then all released. Fresh keys must be granted at once, a held key must
+// refuse a second writer, and after the releases the container must be empty however many entries it held.
+func runBurst(variant string, rw, prime, n int) (string, []corr.Hit) {
+	w := newWorld(variant, rw, prime)
+	keys := make([]interface{}, n)
+	sws := make([]*semap.Weighted, n)
+	for i := range keys {
+		switch i % 3 {
+		case 0:
+			keys[i] = 1000000 + i
+		case 1:
+			keys[i] = "burst-" + strconv.Itoa(i)
+		default:
+			keys[i] = int64(-i)
+		}
+	}
+	isW := func(i int) bool { return i%3 == 0 }
+	acq := w.s.Go("burst-acquire", func() string {
+		for i, k := range keys {
+			var err error
+			if isW(i) {
+				sws[i], err = w.m.AcquireWrite(context.Background(), k)
+			} else {
+				sws[i], err = w.m.AcquireRead(context.Background(), k)
+			}
+			if err != nil {
+				return "err"
+			}
+		}
+		return "ok"
+	})
+	w.settle()
+	if done, res := acq.Done(); !done || res != "ok" {
+		w.hit("burst-fresh-key-not-granted", fmt.Sprintf("%d fresh keys on a new map (rwRatio %d): an Acquire* on a key nobody holds did not return nil (%v %s)", n, rw, done, res))
+		return "blocked", w.hits
+	}
+	live := semap.VerifEntries(w.m)
+	// a held key refuses a second writer (context already ended: the call must come back with the context's error)
+	dead, cancel := context.WithCancel(context.Background())
+	cancel()
+	probe := w.s.Go("burst-probe", func() string {
+		for i := 0; i < n; i += 1 + n/16 {
+			if sw, err := w.m.AcquireWrite(dead, keys[i]); err == nil {
+				w.m.ReleaseWrite(keys[i], sw)
+				return "admitted:" + strconv.Itoa(i)
+			}
+		}
+		return "ok"
+	})
+	w.settle()
+	if done, res := probe.Done(); !done || res != "ok" {
+		w.hit("excl-writer-not-alone", fmt.Sprintf("burst of %d held keys (rwRatio %d): a second writer was admitted on a held key (%v %s)", n, rw, done, res))
+	}
+	rel := w.s.Go("burst-release", func() string {
+		for i, k := range keys {
+			if isW(i) {
+				w.m.ReleaseWrite(k, sws[i])
+			} else {
+				w.m.ReleaseRead(k, sws[i])
+			}
+		}
+		return "ok"
+	})
+	w.settle()
+	if done, _ := rel.Done(); !done {
+		w.hit("release-blocked", fmt.Sprintf("burst of %d keys: the releases did not return", n))
+	}
+	after := semap.VerifEntries(w.m)
+	if after != 0 {
+		w.hit("residue-entry-kept", fmt.Sprintf("%d distinct keys were held at once (%d entries) and all released, nobody waits, yet the container keeps %d entries", n, live, after))
+	}
+	return fmt.Sprintf("live=%d after=%d", live, after), w.hits
+}
+
 func (w *world) weight(c *call) int {
 	if c.write {
 		return w.rw
@@ -464,7 +575,7 @@ func (w *world) monitors(line string) {
 		}
 		// no residue: nobody inside, nobody blocked => no entry
 		if len(ins) == 0 && len(parked) == 0 {
-			if k, ok := parseKey(tok, w.variant); ok {
+			if k, _, routable, ok := w.parseKey(tok); ok && (routable || w.variant == "single") {
 				if _, _, present := semap.VerifKeyState(w.m, k); present {
 					w.hit("residue-entry-kept", desc+"; the container still has an entry for the key")
 				}
@@ -532,6 +643,25 @@ func runCase(c corr.Case) (res corr.Result) {
 				res.Hits = append(res.Hits, hits...)
 				return o
 			}
+			if f[0] == "burst" { // many keys live at once on a fresh map; also ends the current map
+				if len(f) != 5 || (f[1] != "single" && f[1] != "wide" && f[1] != "xhash") {
+					return "bad-op"
+				}
+				rw, ok1 := natCanon(f[2], 6)
+				prime, ok2 := natCanon(f[3], 4)
+				n, ok3 := natCanon(f[4], 5)
+				if !ok1 || !ok2 || !ok3 || rw == 0 || n == 0 || n > 20000 {
+					return "bad-op"
+				}
+				if w != nil {
+					w.cleanup()
+					res.Hits = append(res.Hits, w.hits...)
+					w = nil
+				}
+				o, hits := runBurst(f[1], rw, prime, n)
+				res.Hits = append(res.Hits, hits...)
+				return o
+			}
 			if f[0] == "new" {
 				if len(f) != 4 || (f[1] != "single" && f[1] != "wide" && f[1] != "xhash") {
 					return "bad-op"
@@ -558,14 +688,24 @@ func runCase(c corr.Case) (res corr.Result) {
 			switch {
 			case len(f) == 3 && (f[0] == "acqR" || f[0] == "acqW" || f[0] == "acqRx" || f[0] == "acqWx"):
 				tid, ok := natCanon(f[1], 9)
-				key, okk := parseKey(f[2], w.variant)
+				key, ctok, routable, okk := w.parseKey(f[2])
 				if !ok || !okk || w.calls[tid] != nil {
 					return "bad-op"
 				}
-				o := w.acquire(tid, f[2], key, f[0][3] == 'W', strings.HasSuffix(f[0], "x"))
+				o := w.acquire(tid, ctok, key, routable, f[0][3] == 'W', strings.HasSuffix(f[0], "x"))
 				w.monitors(line)
 				w.idleEntries(line)
 				return o
+			case len(f) == 2 && f[0] == "poke": // the pointee of pointer key p<n> changes (work done under the lock); the key does not
+				n, ok := natCanon(f[1], 3)
+				if !ok {
+					return "bad-op"
+				}
+				if w.objs[n] == nil {
+					w.objs[n] = &ptrObj{N: n}
+				}
+				w.objs[n].N += 1000
+				return "ok"
 			case len(f) == 2 && f[0] == "rel":
 				tid, ok := natCanon(f[1], 9)
 				if !ok || w.calls[tid] == nil || w.calls[tid].status != stInside {
@@ -595,10 +735,11 @@ func runCase(c corr.Case) (res corr.Result) {
 				w.idleEntries(line)
 				return o
 			case len(f) == 2 && f[0] == "inside":
-				if _, ok := parseKey(f[1], w.variant); !ok {
+				_, ctok, _, ok := w.parseKey(f[1])
+				if !ok {
 					return "bad-op"
 				}
-				if s := w.sec[f[1]]; s != nil {
+				if s := w.sec[ctok]; s != nil {
 					return fmt.Sprintf("r=%d w=%d", atomic.LoadInt32(&s.r), atomic.LoadInt32(&s.w))
 				}
 				return "r=0 w=0"
@@ -628,9 +769,12 @@ func runCase(c corr.Case) (res corr.Result) {
 				}
 				return fmt.Sprintf("cur=%d waiters=%d inmap=%d", held, waiters, p)
 			case len(f) == 2 && f[0] == "state":
-				k, ok := parseKey(f[1], w.variant)
+				k, _, routable, ok := w.parseKey(f[1])
 				if !ok {
 					return "bad-op"
+				}
+				if !routable && w.variant != "single" {
+					return "cur=0 waiters=0 present=0" // never stored: the lookup itself would panic in remap
 				}
 				held, waiters, present := semap.VerifKeyState(w.m, k)
 				p := 0
